@@ -11,7 +11,14 @@ expanded row / which bin).  The harness compares
   * exactly: the id rows of expand, the content of the bin matrix (seen through a custom collapser, one of
     the quantified inputs) and the values carried by every variable of every row,
   * numerically: <var>_mean/_std/_number against long-double statistics over the partner values Coq names
-    (absolute tolerance 1e-9 * max(1, |values|)); NaN-ness must agree exactly.
+    (absolute tolerance 1e-9 * max(1, |values|)); NaN-ness must agree exactly,
+  * exactly again: <var>_number and the NaN-ness of <var>_mean/_std against the counts Coq computes from the validity
+    flags of the data (run_counts: through the model's bin matrix and through the partner lists; theorems
+    collapse_mean_std_number, collapse_nan_iff_all_partners_nan, collapse_number_by_mask), the names of the output
+    fields of every call against collapser_names (theorem collapse_call_independent: mean, std, number plus the
+    call's own custom names), a custom `std` replacing only std (collapse_custom_keeps_defaults), and the statistics
+    of the same dataset with its pair list rearranged (collapse_pair_order_invariant: number and NaN-ness exactly,
+    mean/std within the tolerance).
 Only what the property fixes is compared: rows are matched through the per-pair tag and the id variables,
 not by position, and the stored order of the compaction is not compared (only the certified invariant).
 Because the model provably equals the specification whenever the pair rows satisfy the invariant
@@ -24,7 +31,7 @@ import warnings
 import numpy as np
 
 from lib import core
-from lib.core import zlit, zlist, coq_list
+from lib.core import zlit, zlist, coq_list, coq_bool
 
 PREAMBLE = "From Typhon Require Import Model.C13_compact.\n"
 TRUSTED = [
@@ -276,6 +283,28 @@ def observe_expand(ds, names, arrays, pos):
         return err(e)
 
 
+def field_names(out, other):
+    """{variable: sorted function names f of the output fields <other>/<variable>_<f>}"""
+    res = {}
+    for v in ("u", "w", "k"):
+        pre = f"{other}/{v}_"
+        res[v] = sorted(str(n)[len(pre):] for n in out.variables if str(n).startswith(pre))
+    return res
+
+
+def reorder_pairs(ds):
+    """the same collocations with the pair list rearranged (a fixed permutation of the pair axis; the per-pair
+    variables of the Collocations group move with their pairs)"""
+    m = int(ds["Collocations/pairs"].shape[1])
+    perm = np.random.default_rng([m, 7]).permutation(m)
+    ds2 = ds.copy(deep=True)
+    ds2["Collocations/pairs"] = (ds["Collocations/pairs"].dims, ds["Collocations/pairs"].values[:, perm])
+    for v in ("Collocations/interval", "Collocations/distance"):
+        if v in ds2:
+            ds2[v] = (ds[v].dims, ds[v].values[perm])
+    return ds2
+
+
 def observe_collapse(ds, names, ref):
     """collapse with a recording custom collapser; returns the arrays needed by the judge."""
     from typhon.collocations import collapse
@@ -291,7 +320,8 @@ def observe_collapse(ds, names, ref):
             warnings.simplefilter("ignore")
             out = collapse(ds.copy(deep=True), reference=None if ref is None else names[ref], collapser={"rec": rec})
         o = {"ref": refname, "other": other, "nrows": int(out.sizes.get("collocation", -1)),
-             "ref_ids": [int(i) for i in out[f"{refname}/id"].values], "stats": {}, "root": None}
+             "ref_ids": [int(i) for i in out[f"{refname}/id"].values], "stats": {}, "root": None,
+             "names_rec": field_names(out, other)}
         for v in ("time", "lat", "lon"):
             if v not in out or not same(out[v].values, ds[f"{refname}/{v}"].values):
                 o["root"] = f"root variable {v} is not the reference's {v}"
@@ -317,8 +347,21 @@ def observe_collapse(ds, names, ref):
             o["history"] = None
             with warnings.catch_warnings():
                 warnings.simplefilter("ignore")
-                collapse(ds.copy(deep=True), collapser={"std": lambda m, a: np.nanmax(m, axis=a)})
+                over = collapse(ds.copy(deep=True), collapser={"std": lambda m, a: np.nanmax(m, axis=a)})
                 plain = collapse(ds.copy(deep=True))
+                moved = collapse(reorder_pairs(ds))
+            o["names_std"], o["names_plain"] = field_names(over, other), field_names(plain, other)
+            # a custom `std` replaces the default of that name only: it is the recorded nanmax, mean / number stay
+            o["override"] = None
+            for v in ("u", "w", "k"):
+                for f, g in (("std", "rec"), ("mean", "mean"), ("number", "number")):
+                    a, b = f"{other}/{v}_{f}", f"{other}/{v}_{g}"
+                    if a in over and b in out and "collocation" in out[b].dims:
+                        x, y = np.asarray(over[a].values, dtype=float), np.asarray(out[b].values, dtype=float)
+                        if x.shape != y.shape or not np.array_equal(x, y, equal_nan=True):
+                            o["override"] = (f"collapse(collapser={{'std': nanmax}}): {a} is {x.ravel()[:3].tolist()}, expected "
+                                             f"{'the custom function (nanmax)' if f == 'std' else 'the default ' + f} "
+                                             f"{y.ravel()[:3].tolist()}")
             extra = sorted(str(n) for n in plain.variables if str(n).endswith("_rec"))
             if extra:
                 o["history"] = f"a plain collapse() after a call with a custom collapser `rec` still produces {extra[:3]}"
@@ -331,6 +374,23 @@ def observe_collapse(ds, names, ref):
                             if a.shape != b.shape or not np.array_equal(a, b, equal_nan=True):
                                 o["history"] = (f"{name} of a plain collapse() differs after earlier calls with custom collapsers "
                                                 f"(first call {a.ravel()[:3].tolist()}, now {b.ravel()[:3].tolist()})")
+            # the order of the pairs does not matter: same reference points in the same rows, number and NaN-ness
+            # exactly, mean / std within the tolerance (the summation order changes)
+            o["order"] = None
+            if [int(i) for i in moved[f"{refname}/id"].values] != o["ref_ids"]:
+                o["order"] = "the rows of the reference points change with the order of the pairs"
+            else:
+                for v in ("u", "w", "k"):
+                    for f in ("number", "mean", "std"):
+                        name = f"{other}/{v}_{f}"
+                        if name not in plain or name not in moved or "collocation" not in plain[name].dims:
+                            continue
+                        a, b = np.asarray(plain[name].values, dtype=float), np.asarray(moved[name].values, dtype=float)
+                        scale = max(1.0, float(np.nanmax(np.abs(a))) if np.isfinite(a).any() else 1.0)
+                        good = np.array_equal(a, b) if f == "number" else close(a, b, scale)
+                        if not good:
+                            o["order"] = (f"{name} changes when the pair list is rearranged: {a.ravel()[:4].tolist()} -> "
+                                          f"{b.ravel()[:4].tolist()}")
         return o
     except Exception as e:  # noqa
         return err(e)
@@ -348,8 +408,27 @@ def observe_dataset(ds, names, refs):
     return obs
 
 
-def ds_expr(n_p, n_s, pr, sr):
-    return f"run_dataset {zlit(n_p)} {zlit(n_s)} {zlist(pr)} {zlist(sr)}"
+def w_masks(ds, names):
+    """validity flags of variable w: per group one list of flags (one per lane, C order) per stored point"""
+    out = []
+    for g in names:
+        arr = np.asarray(point_arrays(ds, g)["w"], dtype=float)
+        out.append((~np.isnan(arr.reshape(arr.shape[0], -1))).tolist())
+    return out
+
+
+def masks_lit(m):
+    return coq_list([coq_list([coq_bool(b) for b in row]) for row in m])
+
+
+def ds_expr(n_p, n_s, pr, sr, masks):
+    """run_dataset + the exact counts of valid values of w per reference point and lane (reference primary: flags of
+    the secondaries; reference secondary: flags of the primaries) + the field names of the three kinds of calls"""
+    d = f"(ids_cds {zlit(n_p)} {zlit(n_s)} {zlist(pr)} {zlist(sr)})"
+    return (f"(run_dataset {zlit(n_p)} {zlit(n_s)} {zlist(pr)} {zlist(sr)}, "
+            f"run_counts {d} false {masks_lit(masks[1])} {zlit(len(masks[1][0]))}, "
+            f"run_counts {d} true {masks_lit(masks[0])} {zlit(len(masks[0][0]))}, "
+            f'(collapser_names ["rec"%string], collapser_names ["std"%string], collapser_names []))')
 
 
 # ----------------------------------------------------------------------------- reference statistics
@@ -388,12 +467,13 @@ def judge_dataset(ctx, case, ds, names, obs, val, label):
     if val is None:
         ctx.fail("correspondence", "Coq evaluation of the model failed", case=case, signature="coq-eval")
         return False
-    okb, ex_model, ex_spec, cp, cs = val
+    okb, ex_model, ex_spec, cp, cs, cnt_p, cnt_s, (names_rec, names_std, names_plain) = val
     if not okb:
         ctx.fail("correspondence", f"{label}: the generated dataset does not satisfy compact_ok (harness error)",
                  case=case, signature="harness-not-compact")
         return False
-    if ex_model != ex_spec or cp[0] != cp[1] or cs[0] != cs[1] or not cp[2][2] or not cs[2][2]:
+    if ex_model != ex_spec or cp[0] != cp[1] or cs[0] != cs[1] or not cp[2][2] or not cs[2][2] \
+            or cnt_p[0] != cnt_p[1] or cnt_s[0] != cnt_s[1]:
         ctx.fail("proof", "model and specification disagree inside Coq (cannot happen while the theorems stand)",
                  case=case, signature="model-vs-spec")
     kind = "failing-input"            # compact_ok holds, the model provably equals the specification
@@ -431,6 +511,26 @@ def judge_dataset(ctx, case, ds, names, obs, val, label):
             ctx.fail(kind, f"{label}: collapse(reference={o['ref']}): {o['root']}", case=case, signature="collapse-root")
         if o.get("history"):
             ctx.fail(kind, f"{label}: collapse(reference={o['ref']}): {o['history']}", case=case, signature="collapse-history")
+        if o.get("override"):
+            ctx.fail(kind, f"{label}: {o['override']}", case=case, signature="collapse-custom-override")
+        if o.get("order"):
+            ctx.fail(kind, f"{label}: collapse(): {o['order']}", case=case, signature="collapse-pair-order")
+        # the output fields of a call: {**defaults, **custom} of that call only (Coq: collapser_names)
+        for key, want_names, what in (("names_rec", names_rec, "collapser={'rec': f}"), ("names_std", names_std, "collapser={'std': f}"),
+                                      ("names_plain", names_plain, "no custom collapser")):
+            got_names = o.get(key)
+            if got_names is None:
+                continue
+            for v in ("u", "w", "k"):
+                if got_names[v] != sorted(want_names):
+                    # a missing field is a failure of the property; an additional one only a difference to the model
+                    missing = sorted(set(want_names) - set(got_names[v]))
+                    ctx.fail(kind if missing else "correspondence",
+                             f"{label}: collapse(reference={o['ref']}, {what}) returns the fields {got_names[v]} for variable "
+                             f"{o['other']}/{v}, the model (collapser_names) has {sorted(want_names)}"
+                             + (f": {missing} missing" if missing else ""), case=case, impl=got_names[v],
+                             model=sorted(want_names), signature="collapse-fields-missing" if missing else "collapse-fields")
+                    break
         other_ids = obs["ids"][o["other"]]
         rowpos = [obs["pos"][o["ref"]][i] for i in o["ref_ids"]]     # output row -> stored reference point
         # the bin matrix as the custom collapser saw it
@@ -470,6 +570,37 @@ def judge_dataset(ctx, case, ds, names, obs, val, label):
                     break
             if done:
                 break
+            # exactly: the count of valid partner values per lane as Coq states it (w: from the validity flags through
+            # run_counts; u, k hold no NaN: the number of partners), and NaN-ness of mean / std <-> that count is 0
+            cnt_spec = (cnt_s if ref_secondary else cnt_p)[1]
+            got_n = np.asarray(st["number"]).reshape(n_ref, -1)
+            if v == "w":
+                want_n = np.array([cnt_spec[rowpos[r]] for r in range(n_ref)], dtype=np.int64).reshape(n_ref, -1)
+            else:
+                want_n = np.repeat(np.array([[len(cols_spec[rowpos[r]])] for r in range(n_ref)], dtype=np.int64),
+                                   max(1, got_n.shape[1]), axis=1)
+            if got_n.shape != want_n.shape or not np.array_equal(got_n, want_n):
+                bad = np.argwhere(got_n != want_n)[0] if got_n.shape == want_n.shape else [0, 0]
+                r = int(bad[0])
+                ctx.fail(kind, f"{label}: collapse(reference={o['ref']}): {o['other']}/{v}_number of reference point "
+                         f"{o['ref_ids'][r]} is {got_n[r].tolist()}, its partner points "
+                         f"{[other_ids[j] for j in cols_spec[rowpos[r]]]} hold {want_n[r].tolist() if got_n.shape == want_n.shape else want_n.shape} "
+                         f"values that are not NaN (per lane)", case=case, impl=got_n[r].tolist(),
+                         model=want_n[r].tolist() if got_n.shape == want_n.shape else None, signature="collapse-number-exact")
+                break
+            for f in ("mean", "std"):
+                got_nan = np.isnan(np.asarray(st[f], dtype=float)).reshape(n_ref, -1)
+                if got_nan.shape != want_n.shape or not np.array_equal(got_nan, want_n == 0):
+                    bad = np.argwhere(got_nan != (want_n == 0))[0] if got_nan.shape == want_n.shape else [0, 0]
+                    r = int(bad[0])
+                    ctx.fail(kind, f"{label}: collapse(reference={o['ref']}): {o['other']}/{v}_{f} of reference point "
+                             f"{o['ref_ids'][r]} is {np.asarray(st[f], dtype=float).reshape(n_ref, -1)[r].tolist()}; it has to be NaN "
+                             f"exactly in the lanes without a valid partner value (valid values per lane: {want_n[r].tolist()})",
+                             case=case, impl=got_nan[r].tolist(), model=(want_n[r] == 0).tolist(), signature="collapse-nan-exact")
+                    done = True
+                    break
+            if done:
+                break
             for r in range(n_ref):
                 part = src[cols_spec[rowpos[r]]] if cols_spec[rowpos[r]] else src[:0]
                 want = stats_ld(part)
@@ -500,7 +631,8 @@ def check_ds_cases(ctx, cases, shard=40):
         refs = sorted({None, c["reference"], 1}, key=str)
         built.append((c, ds, names, observe_dataset(ds, names, refs)))
     vals, log = core.coq_eval(ctx.work / "cases", f"ds{shard}", PREAMBLE,
-                              [ds_expr(c["np"], c["ns"], *c["pairs"]) for c in cases], shard=shard, timeout=900)
+                              [ds_expr(c["np"], c["ns"], *c["pairs"], w_masks(ds, names)) for c, ds, names, _ in built],
+                              shard=shard, timeout=900)
     if log:
         ctx.log(log[-2000:])
     nontrivial = set()
@@ -775,7 +907,8 @@ def check_collocate_cases(ctx, cases):
     # the results of collocate go through expand / collapse like every other compact dataset
     obs = [observe_dataset(o["ds"], o["names"], [None, 1]) for _, o in follow]
     vals, log = core.coq_eval(ctx.work / "cases", "colds", PREAMBLE,
-                              [ds_expr(len(o["idp"]), len(o["ids"]), o["out"][0], o["out"][1]) for _, o in follow], shard=40)
+                              [ds_expr(len(o["idp"]), len(o["ids"]), o["out"][0], o["out"][1], w_masks(o["ds"], o["names"]))
+                               for _, o in follow], shard=40)
     if log:
         ctx.log(log[-2000:])
     for (c, o), ob, v in zip(follow, obs, vals):
